@@ -5,7 +5,7 @@ option templates, emitter attributes, visitor methods)."""
 import ast
 import re
 
-from sa import tables, templ, pyflow, fmtfields, interop
+from sa import state, tables, templ, pyflow, fmtfields, interop
 from sa.loader import AnalysisError, parent_chain
 
 EXPLANATION = (
@@ -686,6 +686,202 @@ def _instances_stored(repo, clsname):
     return False
 
 
+def rule_r9(repo, run, T):
+    R = run.rule("C05.R9", "headers are included under the preprocessor branch of the language that provides them "
+                           "(#ifdef __cplusplus -> C++ headers, #else / #ifndef -> C headers)")
+    um = repo.module("util")
+    f = um.func("Header.write_includes_for_header")
+    # provenance of each header table: which typemap field fills it
+    prov = {}
+    for lp in ast.walk(f):
+        if isinstance(lp, ast.For) and isinstance(lp.iter, ast.Attribute) and lp.iter.attr.endswith("_header"):
+            lang = {"c_header": "c", "cxx_header": "c++", "wrap_header": "any"}.get(lp.iter.attr)
+            for c in ast.walk(lp):
+                if isinstance(c, ast.Call) and isinstance(c.func, ast.Attribute) and c.func.attr == "setdefault" \
+                        and isinstance(c.func.value, ast.Name):
+                    prov[c.func.value.id] = lang
+    # a table filled from entries that are in both the C and the C++ table is language neutral
+    for node in ast.walk(f):
+        if isinstance(node, ast.Assign) and isinstance(node.targets[0], ast.Subscript) and \
+                isinstance(node.targets[0].value, ast.Name) and isinstance(node.value, ast.Subscript) and \
+                isinstance(node.value.value, ast.Name) and node.value.value.id in prov:
+            prov.setdefault(node.targets[0].value.id, "any")
+    if sorted(v for v in prov.values() if v in ("c", "c++")) != ["c", "c++"]:
+        raise AnalysisError("C05.R9: header tables of write_includes_for_header not recognised: %s" % prov)
+    first = min(i for i, st in enumerate(f.body) if any(
+        (pyflow.call_name(c) or "").endswith("write_include_group") for c in pyflow.calls_in(st)))
+    n = 0
+    seen = set()
+    for path in pyflow.paths(f.body[first:]):
+        state = None            # None | "c" | "c++"
+        c_only_lib = any(pol and "language" in um.seg(t) and pyflow.const_str(getattr(t, "comparators", [None])[0]) == "c"
+                         for t, pol in path.conds)
+        for st in path.stmts:
+            if isinstance(st, ast.If):
+                continue
+            for c in pyflow.calls_in(st):
+                d = pyflow.call_name(c) or ""
+                if d.endswith(".append") and c.args and isinstance(c.args[0], ast.Constant) and isinstance(c.args[0].value, str):
+                    t = c.args[0].value.replace(" ", "")
+                    if t == "#ifdef__cplusplus":
+                        state = "c++"
+                    elif t == "#ifndef__cplusplus":
+                        state = "c"
+                    elif t == "#else":
+                        state = {"c": "c++", "c++": "c"}.get(state, state)
+                    elif t == "#endif":
+                        state = None
+                elif d.endswith("write_include_group") and c.args and isinstance(c.args[0], ast.Name):
+                    lst = c.args[0].id
+                    lang = prov.get(lst)
+                    key = (lst, state, c_only_lib, c.lineno)
+                    if key in seen:
+                        continue
+                    seen.add(key)
+                    n += 1
+                    if state is None:
+                        ok = lang == "any" or (lang == "c" and c_only_lib)
+                        why = "%s headers (%s) are included outside any __cplusplus guard" % (lang, lst)
+                    else:
+                        ok = lang in (state, "any")
+                        why = "%s headers (%s) are included in the branch seen by %s compilers" % (lang, lst, state)
+                    run.check(R, "util.Header.write_includes_for_header:%s@%s" % (lst, state or ("c-library" if c_only_lib else "unguarded")),
+                              ok, why + ": a wrapper header compiled from the other language does not find them",
+                              um.loc(c), sample=dict(table=lst, provides=lang, branch=state))
+    run.floor(R, "guarded include groups", n, 5)
+
+
+def _readable_keys(mod, func):
+    """String keys a helper gatherer can look up in the helper dictionary: constants, and keys
+    computed as <language> + "_x" (language in c / cxx) or from a literal list being iterated."""
+    out = set()
+    loopvals = {}
+    for n in ast.walk(func):
+        if isinstance(n, ast.For) and isinstance(n.target, ast.Name) and isinstance(n.iter, (ast.List, ast.Tuple)):
+            loopvals[n.target.id] = [pyflow.const_str(e) for e in n.iter.elts if pyflow.const_str(e) is not None]
+
+    def values(e):
+        if isinstance(e, ast.Constant) and isinstance(e.value, str):
+            return [e.value]
+        if isinstance(e, ast.Attribute) and e.attr == "language":
+            return ["c", "cxx"]
+        if isinstance(e, ast.Name) and e.id in loopvals:
+            return loopvals[e.id]
+        if isinstance(e, ast.BinOp) and isinstance(e.op, ast.Add):
+            return [a + b for a in values(e.left) for b in values(e.right)]
+        return []
+    for n in ast.walk(func):
+        if isinstance(n, (ast.Constant, ast.BinOp)):
+            out.update(values(n))
+    return out
+
+
+PAYLOAD = {"include", "c_include", "cxx_include", "source", "c_source", "cxx_source", "proto", "cxx_proto", "c_proto",
+           "scope", "dependent_helpers", "derived_type", "interface", "modules", "private", "need_numpy"}
+
+
+def rule_r10(repo, run, T):
+    R = run.rule("C05.R10", "every payload key a requested helper defines is looked up by the emitter that gathers it "
+                            "(includes, prototypes and sources of helpers reach the output)")
+    helpers = T["helpers"]
+    wc, wf, wp = repo.module("wrapc"), repo.module("wrapf"), repo.module("wrapp")
+    readers = {
+        "wrapc": _readable_keys(wc, wc.func("Wrapc._gather_helper_code")),
+        "wrapf": _readable_keys(wf, wf.func("Wrapf._gather_helper_code")),
+        "wrapp": _readable_keys(wp, wp.func("Wrapp._gather_helper_code")),
+    }
+    # C helpers requested through the C/Fortran statement table or by name in wrapc
+    req = set()
+    for lang in ("c", "c++"):
+        for name, e in T["fc"].resolve_all(lang).items():
+            for h in str(e.get("c_helper") or "").split():
+                req.update(match_helper(h, helpers.c))
+    for c in ast.walk(wc.tree):
+        if isinstance(c, ast.Call) and (pyflow.call_name(c) or "").endswith("add_c_helper") and c.args:
+            v = pyflow.const_str(c.args[0])
+            if v:
+                req.update(match_helper(v, helpers.c))
+        if isinstance(c, ast.Assign) and isinstance(c.targets[0], ast.Subscript) and \
+                (pyflow.dotted(c.targets[0].value) or "").endswith(("c_helper", "shared_helper")):
+            v = pyflow.const_str(c.targets[0].slice)
+            if v:
+                req.update(match_helper(v, helpers.c))
+    hc = closure(sorted(req), helpers.c)
+    hp = closure(sorted(k for k, h in helpers.c.items() if any(x in h for x in ("proto", "cxx_proto", "need_numpy"))), helpers.c)
+    n = 0
+    for reader, keys, tab, side in (("wrapc", hc, helpers.c, "CHelpers"), ("wrapp", hp, helpers.c, "CHelpers"),
+                                    ("wrapf", sorted(helpers.f), helpers.f, "FHelpers")):
+        for key in keys:
+            h = tab[key]
+            for k in sorted(set(h.keys()) & PAYLOAD):
+                if reader == "wrapc" and k in ("proto", "cxx_proto", "c_proto", "need_numpy"):
+                    continue        # prototypes are a Python-emitter concept
+                n += 1
+                run.check(R, "whelpers.%s[%s].%s->%s" % (side, key, k, reader), k in readers[reader],
+                          "helper %s defines %r but %s._gather_helper_code never looks that key up: the %s is missing "
+                          "from the generated file" % (key, k, reader, k), repo.module("whelpers").loc(h.node),
+                          sample=dict(helper=key, key=k, reader=reader))
+    run.floor(R, "helper payload keys", n, 80)
+
+
+def rule_r11(repo, run, T):
+    R = run.rule("C05.R11", "per-class accumulators of the Fortran module writer are re-created for every class "
+                            "(a derived type never lists bindings collected for an earlier class)")
+    wf = repo.module("wrapf")
+    wc = wf.func("Wrapf.wrap_class")
+    finfo = wc.args.args[2].arg
+    consumed = {}
+    for n in ast.walk(wc):
+        # whole-container consumption: iteration or bulk copy of fileinfo.X
+        cands = []
+        if isinstance(n, (ast.For, ast.comprehension)):
+            cands.append(n.iter)
+        if isinstance(n, ast.Call) and isinstance(n.func, ast.Attribute) and n.func.attr == "extend" and n.args:
+            cands.append(n.args[0])
+        for e in cands:
+            for x in ast.walk(e):
+                if isinstance(x, ast.Attribute) and pyflow.is_name(x.value, finfo):
+                    par = getattr(x, "_parent", None)
+                    if isinstance(par, ast.Subscript) and par.value is x:
+                        continue        # fileinfo.X[key]: keyed per class
+                    consumed[x.attr] = wf.loc(n if hasattr(n, "lineno") else e)
+    if not consumed:
+        raise AnalysisError("C05.R11: wrap_class consumes no container of the module writer")
+    mi = wf.cls("ModuleInfo")
+    bc = wf.func("ModuleInfo.begin_class")
+    fresh = set()
+    for n in ast.walk(bc):
+        if isinstance(n, ast.Assign):
+            for t in n.targets:
+                if isinstance(t, ast.Attribute) and pyflow.is_name(t.value, "self") and state.is_mutable_value(n.value):
+                    fresh.add(t.attr)
+    for attr, loc in sorted(consumed.items()):
+        run.check(R, "wrapf.ModuleInfo.begin_class:%s" % attr, attr in fresh,
+                  "wrap_class emits the whole of fileinfo.%s for each class, but begin_class does not re-create it: the "
+                  "second class of a module repeats the bindings/generics of the first (duplicate `generic ::` / "
+                  "`procedure ::` lines do not compile)" % attr, loc, sample=dict(attribute=attr, reset_in_begin_class=attr in fresh))
+    run.floor(R, "per-class containers", len(consumed), 2)
+    # begin_class precedes the class body in every loop over classes
+    wn = wf.func("Wrapf.wrap_namespace")
+    nloops = 0
+    for lp in ast.walk(wn):
+        if isinstance(lp, ast.For) and (pyflow.dotted(lp.iter) or "").endswith(".classes"):
+            nloops += 1
+            order = []
+            for st in lp.body:
+                for c in pyflow.calls_in(st):
+                    d = pyflow.call_name(c) or ""
+                    if d.endswith(".begin_class"):
+                        order.append(("begin", st))
+                    elif d in ("self.wrap_class", "self.wrap_struct"):
+                        order.append(("wrap", st))
+            ok = bool(order) and order[0][0] == "begin" and isinstance(order[0][1], ast.Expr)
+            run.check(R, "wrapf.Wrapf.wrap_namespace:begin_class-first", ok,
+                      "every class must start with an unconditional fileinfo.begin_class() before it is wrapped", wf.loc(lp))
+    if nloops != 1:
+        raise AnalysisError("C05.R11: loop over classes in wrap_namespace not found")
+
+
 def run(repo, run, tier):
     tables.check_model_assumptions(repo)
     T = dict(
@@ -703,6 +899,9 @@ def run(repo, run, tier):
     rule_r6(repo, run, T)
     rule_r7(repo, run, T)
     rule_r8(repo, run, T)
+    rule_r9(repo, run, T)
+    rule_r10(repo, run, T)
+    rule_r11(repo, run, T)
     run.assumptions.extend([
         "field universe is an over-approximation (any attribute store / Scope keyword in the emitter's "
         "modules defines the field): a report means no assignment exists at all",
